@@ -104,12 +104,23 @@ def checkT1 (oc : Bool) (pre : List String) (opT : List String) (outT : List Str
   let ip ← obs? postT
   let mut v : List String := []
   if !(mo == io && mp == ip) then v := "DRIFT" :: v
-  if !agreeC01 op mo mp io ip then v := "DIFF C01" :: v
-  if !agreeC03 op mo mp io ip then v := "DIFF C03" :: v
-  if !agreeC04 b op mo mp io ip then v := "DIFF C04" :: v
+  -- `copy_once_from` with free space only in front of the unread bytes: C12 leaves open whether it refuses (today,
+  -- the primary model) or compacts first; the implementation may agree with either
+  let alt : Option (Out × Obs) := match op with
+    | .copyOnce _ =>
+      if b.free == 0 && decide (0 < b.ri) then
+        let (b2, o2) := step oc (step oc b .shift).1 op
+        some (o2, b2.obs)
+      else none
+    | _ => none
+  let agree (f : Out → Obs → Bool) : Bool :=
+    f mo mp || (match alt with | some (o2, p2) => f o2 p2 | none => false)
+  if !agree (fun mo mp => agreeC01 op mo mp io ip) then v := "DIFF C01" :: v
+  if !agree (fun mo mp => agreeC03 op mo mp io ip) then v := "DIFF C03" :: v
+  if !agree (fun mo mp => agreeC04 b op mo mp io ip) then v := "DIFF C04" :: v
   if !agreeC10 op mo mp io ip then v := "DIFF C10" :: v
   if !agreeC11 b op mo mp io ip then v := "DIFF C11" :: v
-  if !agreeC12 op mo mp io ip then v := "DIFF C12" :: v
+  if !agree (fun mo mp => agreeC12 op mo mp io ip) then v := "DIFF C12" :: v
   if !Sat_C01 b op io ip then v := "UNSAT C01" :: v
   if !Sat_C03 b op io ip then v := "UNSAT C03" :: v
   if !Sat_C04 b op io ip then v := "UNSAT C04" :: v
